@@ -5,6 +5,6 @@
 
 pub mod common;
 mod c15;
-pub mod gen_c15;
+mod gen_c15;
 mod c16;
 mod gen_c16;
